@@ -285,7 +285,7 @@ fn nest_depths() -> Vec<usize> {
     d
 }
 
-const NEST_PATTERNS: usize = 12;
+const NEST_PATTERNS: usize = 17;
 fn nest_doc(pattern: usize, d: usize) -> (Vec<u8>, bool) {
     // (text, is_json)
     let s = match pattern {
@@ -300,7 +300,13 @@ fn nest_doc(pattern: usize, d: usize) -> (Vec<u8>, bool) {
         8 => "ver:\"3.0\" m:".to_string() + &"{a:".repeat(d),
         9 => return (("[".repeat(d) + &"]".repeat(d)).into_bytes(), true),
         10 => return (("{\"a\":".repeat(d)).into_bytes(), true),
-        _ => return (("{\"_kind\":\"grid\",\"cols\":[],\"rows\":[{\"a\":".repeat(d)).into_bytes(), true),
+        11 => return (("{\"_kind\":\"grid\",\"cols\":[],\"rows\":[{\"a\":".repeat(d)).into_bytes(), true),
+        // every place a value may start with an undelimited grid (`ver:` after an identifier token)
+        12 => "ver:\"3.0\" a:".repeat(d) + "1\na\n",
+        13 => "ver:\"3.0\"\nc a:".repeat(d) + "1\n",
+        14 => "[ver:\"3.0\"\na\n".repeat(d),
+        15 => "{a:ver:\"3.0\" b:".repeat(d) + "1\na\n",
+        _ => "ver:\"3.0\"\na\n".repeat(d),
     };
     (s.into_bytes(), false)
 }
